@@ -116,6 +116,9 @@ func (c *Ctx) drawIntn(info *types.Info, rel string, call *ast.CallExpr, stack [
 			c.Trivial("DRAW", key, call.Pos(), why+" (outside the selections C20 names; informational)")
 		}
 	}
+	if c.drawThroughWrapper(info, arg, call, stack) {
+		return
+	}
 	if body != nil && v == nil && len(stack) > 0 {
 		switch par := stack[len(stack)-1].(type) {
 		case *ast.BinaryExpr:
@@ -1004,6 +1007,226 @@ func (c *Ctx) drawReservoirStep(info *types.Info, key, arg string, call *ast.Cal
 		c.Violation("DRAW", key, call.Pos(), "reservoir sampling: "+bad+": later items are drawn against a stale count").Clause = "every tree / tip subset has the same probability; reservoir sampling"
 	default:
 		c.OK("DRAW", key, call.Pos(), fmt.Sprintf("reservoir step %s(%s, %s): fill under %s < %s, draw Intn(%s), kept iff draw < %s; %d caller(s) advance the count once per item", fobj.Name(), cObj.Name(), nObj.Name(), cObj.Name(), nObj.Name(), arg, nObj.Name(), nCalls))
+	}
+	return true
+}
+
+// callSitesOf: the calls of fn in its own package, each with the stack of its enclosing nodes.
+func (c *Ctx) callSitesOf(fn *types.Func) (sites []struct {
+	call  *ast.CallExpr
+	stack []ast.Node
+	info  *types.Info
+}) {
+	for _, p := range c.All {
+		if p.Types != fn.Pkg() {
+			continue
+		}
+		for _, f := range p.Syntax {
+			walkStack(f, func(nd ast.Node, stack []ast.Node) bool {
+				if call, ok := nd.(*ast.CallExpr); ok && calleeOf(p.TypesInfo, call) == fn {
+					sites = append(sites, struct {
+						call  *ast.CallExpr
+						stack []ast.Node
+						info  *types.Info
+					}{call, append([]ast.Node{}, stack...), p.TypesInfo})
+				}
+				return true
+			})
+		}
+	}
+	return
+}
+
+// drawThroughWrapper: the draw sits in a tiny function of its own and the idiom is in the callers:
+//
+//	func oneChanceOver(total int) bool { return rand.Intn(total) == 0 }     -- replacement draw
+//	func slot(seen, size int) int { if seen < size { return seen }; return rand.Intn(seen + 1) }  -- reservoir slot
+//
+// Each caller is then judged as if the draw were written in place.
+func (c *Ctx) drawThroughWrapper(info *types.Info, arg string, call *ast.CallExpr, stack []ast.Node) bool {
+	var fd *ast.FuncDecl
+	for _, n := range stack {
+		if d, ok := n.(*ast.FuncDecl); ok {
+			fd = d
+		}
+		if _, ok := n.(*ast.FuncLit); ok {
+			return false
+		}
+	}
+	if fd == nil || fd.Body == nil || fd.Recv != nil || len(stack) == 0 {
+		return false
+	}
+	fobj, _ := info.Defs[fd.Name].(*types.Func)
+	if fobj == nil {
+		return false
+	}
+	paramIdx := func(o types.Object) int {
+		for k := 0; ; k++ {
+			p := paramObj(info, fd, k)
+			if p == nil {
+				return -1
+			}
+			if p == o {
+				return k
+			}
+		}
+	}
+	// (A) `return rand.Intn(P) == 0` as the whole body
+	if len(fd.Body.List) == 1 {
+		if ret, ok := fd.Body.List[0].(*ast.ReturnStmt); ok && len(ret.Results) == 1 {
+			if be, ok := unparen(ret.Results[0]).(*ast.BinaryExpr); ok && be.Op == token.EQL {
+				other := be.Y
+				if unparen(be.Y) == ast.Expr(call) {
+					other = be.X
+				} else if unparen(be.X) != ast.Expr(call) {
+					return false
+				}
+				tv, has := info.Types[other]
+				k := paramIdx(identObj(info, call.Args[0]))
+				if !has || tv.Value == nil || tv.Value.ExactString() != "0" || k < 0 {
+					return false
+				}
+				sites := c.callSitesOf(fobj)
+				if len(sites) == 0 {
+					c.Undecided("DRAW", funcName(fobj)+"/Intn("+arg+")", call.Pos(), "replacement-draw helper with no caller")
+					return true
+				}
+				for _, st := range sites {
+					if k >= len(st.call.Args) {
+						continue
+					}
+					carg := c.canon(st.info, st.call.Args[k], nil)
+					key := c.enclosingFuncName(st.info, st.stack) + "/Intn(" + carg + ")"
+					synth := &ast.CallExpr{Fun: st.call.Fun, Lparen: st.call.Lparen, Args: []ast.Expr{st.call.Args[k]}, Rparen: st.call.Rparen}
+					// the caller's call stands where the comparison with 0 stood
+					c.drawWithReplacement(st.info, key, carg, synth, st.stack)
+				}
+				return true
+			}
+		}
+	}
+	// (B) slot function: `if C < N { return C }; return rand.Intn(E)` (or the inverted form)
+	ret, isRet := stack[len(stack)-1].(*ast.ReturnStmt)
+	if !isRet || len(ret.Results) != 1 || unparen(ret.Results[0]) != ast.Expr(call) {
+		return false
+	}
+	conds, okc := c.pathConds(info, fd.Body, ret, false)
+	if !okc {
+		return false
+	}
+	code := c.condsToBexpr(info, conds, nil)
+	terms, atoms := map[string]bool{}, map[string]bool{}
+	code.collect(terms, atoms)
+	var cObj, nObj types.Object
+	for k := 0; ; k++ {
+		p := paramObj(info, fd, k)
+		if p == nil {
+			break
+		}
+		for k2 := 0; ; k2++ {
+			q := paramObj(info, fd, k2)
+			if q == nil {
+				break
+			}
+			if p == q || !terms[p.Name()] || !terms[q.Name()] {
+				continue
+			}
+			if eq, _, _, err := gfEquiv(code, bNot(bCmp(p.Name(), token.LSS, q.Name()))); err == nil && eq {
+				cObj, nObj = p, q
+			}
+		}
+	}
+	if cObj == nil {
+		return false
+	}
+	// the other return hands back C under C < N
+	fillOK := false
+	ast.Inspect(fd.Body, func(m ast.Node) bool {
+		r2, ok := m.(*ast.ReturnStmt)
+		if !ok || r2 == ret || len(r2.Results) != 1 || identObj(info, r2.Results[0]) != cObj {
+			return true
+		}
+		cs, okc2 := c.pathConds(info, fd.Body, r2, false)
+		if okc2 {
+			if eq, _, _, err := gfEquiv(c.condsToBexpr(info, cs, nil), bCmp(cObj.Name(), token.LSS, nObj.Name())); err == nil && eq {
+				fillOK = true
+			}
+		}
+		return true
+	})
+	if !fillOK {
+		return false
+	}
+	want := canonPlus1(cObj.Name())
+	key := funcName(fobj) + "/Intn(" + arg + ")"
+	if arg != want {
+		c.Violation("DRAW", key, call.Pos(), fmt.Sprintf("reservoir slot: the item at zero-based position %s must draw its slot from Intn(%s), not Intn(%s)", cObj.Name(), want, arg)).Clause = "every tree / tip subset has the same probability; reservoir sampling"
+		return true
+	}
+	sites := c.callSitesOf(fobj)
+	if len(sites) == 0 {
+		c.Undecided("DRAW", key, call.Pos(), "reservoir slot function with no caller")
+		return true
+	}
+	ci, ni := paramIdx(cObj), paramIdx(nObj)
+	for _, st := range sites {
+		ckey := c.enclosingFuncName(st.info, st.stack) + "/Intn(" + c.canon(st.info, st.call.Args[ci], nil) + " + 1)"
+		v := assignedVar(st.info, st.call, st.stack)
+		body := enclosingBody(st.stack)
+		if v == nil || body == nil {
+			c.Undecided("DRAW", ckey, st.call.Pos(), "result of the slot function is not stored in a variable: draw idiom not recognised")
+			continue
+		}
+		nKey := c.canon(st.info, st.call.Args[ni], nil)
+		guardOK := false
+		ast.Inspect(body, func(m ast.Node) bool {
+			as, ok := m.(*ast.AssignStmt)
+			if !ok {
+				return true
+			}
+			for _, l := range as.Lhs {
+				ix, ok := unparen(l).(*ast.IndexExpr)
+				if !ok || identObj(st.info, ix.Index) != v {
+					continue
+				}
+				cs, okc2 := c.pathConds(st.info, body, as, true)
+				if !okc2 {
+					continue
+				}
+				if imp, _, _, err := gfImplies(c.condsToBexpr(st.info, cs, nil), bCmp(v.Name(), token.LSS, nKey)); err == nil && imp {
+					guardOK = true
+				}
+			}
+			return true
+		})
+		counterOK, why := true, ""
+		if cnt := identObj(st.info, st.call.Args[ci]); cnt != nil {
+			var loopBody *ast.BlockStmt
+			byLoop := false
+			for i := len(st.stack) - 1; i >= 0 && loopBody == nil; i-- {
+				switch lp := st.stack[i].(type) {
+				case *ast.RangeStmt:
+					loopBody = lp.Body
+					byLoop = lp.Key != nil && identObj(st.info, lp.Key) == cnt
+				case *ast.ForStmt:
+					loopBody = lp.Body
+					if inc, ok := lp.Post.(*ast.IncDecStmt); ok && inc.Tok == token.INC && identObj(st.info, inc.X) == cnt {
+						byLoop = true
+					}
+				}
+			}
+			if loopBody != nil && !byLoop {
+				counterOK, why = incOncePerIteration(st.info, loopBody.List, cnt)
+			}
+		}
+		switch {
+		case !guardOK:
+			c.Violation("DRAW", ckey, st.call.Pos(), "reservoir sampling: the store into the drawn slot is not guarded by `"+v.Name()+" < "+nKey+"`").Clause = "every tree / tip subset has the same probability"
+		case !counterOK:
+			c.Violation("DRAW", ckey, st.call.Pos(), "reservoir sampling: the count of items seen is not incremented exactly once on every path of an iteration ("+why+")").Clause = "every tree / tip subset has the same probability; reservoir sampling"
+		default:
+			c.OK("DRAW", ckey, st.call.Pos(), "reservoir through "+fobj.Name()+": slot = position while the reservoir fills, Intn(position+1) afterwards, stored iff slot < "+nKey)
+		}
 	}
 	return true
 }
